@@ -75,6 +75,18 @@ CHECKS['C12'] = {
     'note': 'Trusted: Subscribers::send as ghost log append, store shells. Reconciliation path events and channel bookkeeping are not covered.',
     'technique': TECH,
 }
+CHECKS['C17'] = {
+    'text': 'Verus proves on the real text of Store::register_useful_peer (85 lines, multimap iteration, eviction and refresh logic) that it performs exactly the most-recently-used step: unknown document fails with nothing changed, at most five peers, no duplicates, the registered peer present, re-registration replaces the old row, the oldest row is evicted only when the list is full and the peer is new, every other document and table unchanged; get_sync_peers returns the list most recent first; a lemma over these contracts shows that after any history of registrations with increasing clock the list is the five most recently registered distinct peers.',
+    'design_ref': 'DESIGN.md section 5, C17',
+    'note': 'Trusted: multimap ordering (A-redb), clock monotonicity as hypothesis, cache size shell. Reopen not covered.',
+    'technique': TECH,
+}
+CHECKS['C18'] = {
+    'text': 'Verus proves on the real text of the migrations: migration_004 skips and writes nothing iff the by-key index is non-empty, else the index becomes exactly {(ns,key,author)} of the records with the right count and records unchanged; migration_001 (full rebuild incl. the HashMap entry loop) skips iff heads are present or records empty, else heads are exactly the greatest timestamp per (namespace, author); migrations 002/003 skip iff no v1 table; run_migration commits iff Execute; run_migrations leaves an up-to-date database unchanged.',
+    'design_ref': 'DESIGN.md section 5, C18',
+    'note': 'Trusted: redb transaction/table shells, HashMap entry shell. Frame of unopened tables inside a transaction cannot be expressed; 002/003 Execute paths unspecified.',
+    'technique': TECH,
+}
 NOT_APPLICABLE = {
     'C01': 'whole-session convergence of the generic async reconciliation routine (GAT iterators, three closures, FuturesOrdered) is a protocol proof over message histories, outside function contracts; Verus cannot take process_message, Kani cannot run the redb store or Bytes',
     'C04': 'statement over interleavings/histories of 2..5 replicas with lossy gossip and restarts; no function or data structure whose contract expresses it',
